@@ -63,6 +63,7 @@ struct ViewCfg
   std::string new_name;
   bool filter;
   std::set<std::string> allowed;
+  bool drop = false;  // Drop aggregation: the view matches (so no default stream) but its stream reports nothing
 };
 struct InstCfg
 {
@@ -272,6 +273,18 @@ struct World
         unrenamed.insert(t);
       else
         v.new_name = "v" + std::to_string(j) + "_" + insts[t].name;
+      // a Drop view among the views of an instrument (from seeded change C06-w6-2): it configures no stream of
+      // its own, and every other view stream of the instrument must still see every measurement
+      if (r.chance(1, 6))
+      {
+        v.drop = true;
+        if (v.new_name.empty())
+        {
+          unrenamed.erase(t);
+          v.new_name = "v" + std::to_string(j) + "_" + insts[t].name;
+        }
+        v.new_name = "dropped_" + v.new_name;
+      }
       views.push_back(v);
     }
     // a DIFFERENT instrument with the same name in the same meter: same type and value type, other
@@ -343,6 +356,8 @@ struct World
         matched.push_back(-1);
       for (int j : matched)
       {
+        if (j >= 0 && views[j].drop)
+          continue;  // matched, hence no default stream, but nothing is reported for it
         Stream s;
         s.inst   = static_cast<int>(i);
         s.view   = j;
@@ -396,8 +411,10 @@ struct World
       }
       else
         ap.reset(new msdk::DefaultAttributesProcessor());
-      std::unique_ptr<msdk::View> view(
-          new msdk::View(v.new_name, "", "", msdk::AggregationType::kDefault, nullptr, std::move(ap)));
+      std::unique_ptr<msdk::View> view(new msdk::View(
+          v.new_name, "", "", v.drop ? msdk::AggregationType::kDrop : msdk::AggregationType::kDefault, nullptr, std::move(ap)));
+      if (v.drop)
+        vf::report().count("drop_views");
       provider->AddView(std::move(is), std::move(ms), std::move(view));
     }
     for (auto &m : meters)
@@ -718,6 +735,11 @@ struct SeqCase
       if (mi != w.meter_index.end() && !cr.exact.count(mi->second))
         cr.exact[mi->second] = g.end_ns;
       int si = w.find_stream(g);
+      if (si < 0 && g.name.rfind("dropped_", 0) == 0)
+      {
+        R.count("drop_view_stream_handed_out_dontcare");  // how a Drop stream shows up (if at all) is not stated
+        continue;
+      }
       if (si < 0 || w.handles_created[w.streams[si].inst] == 0)
       {
         // same name as a model stream but another unit/description: its own class
@@ -1166,6 +1188,8 @@ struct ConcCase
     for (auto &g : got)
     {
       int si = w.find_stream(g);
+      if (si < 0 && g.name.rfind("dropped_", 0) == 0)
+        continue;
       if (si < 0)
       {
         R.violation("unexpected-stream", "concurrent", "reader " + std::to_string(ri) + " was given stream " + g.scope + "/" + g.name);
